@@ -76,8 +76,9 @@ def compare(c, dump):
         wr = [(a["name"].lower(), ty_text(a["ty"])) for a in e.get("redeclared", [])]
         if gr != wr:
             out.append(("redeclared-attrs", "%s: redeclared attributes %s, declared %s" % (e["name"], [(a["name"], a["kind"], a["type"]) for a in g["attrs"] if a["kind"] not in ("explicit", "derived")], wr)))
-        gd = [(a["name"].lower(), norm(a["type"])) for a in g["attrs"] if a["kind"] == "derived"]
-        wd = [(a["name"].lower(), ty_text(a["ty"])) for a in e["derived"]]
+        # (a derived redeclaration SELF\\e3.c1 is compared by the inherited name)
+        gd = [(a["name"].lower().split(".")[-1], norm(a["type"])) for a in g["attrs"] if a["kind"] == "derived"]
+        wd = [(a["name"].lower().split(".")[-1], ty_text(a["ty"])) for a in e["derived"]]
         if gd != wd:
             out.append(("derived-attrs", "%s: derived attributes %s, declared %s" % (e["name"], gd, wd)))
         gi = [(a["name"].lower(), a["ent"].lower(), a["attr"].lower(), a["setof"]) for a in g["inverse"]]
